@@ -7,3 +7,10 @@ mod types;
 
 pub use state::H263State;
 pub use types::DecoderOption;
+
+/// Verification hooks (feature `verif`): internal items made reachable for `crate::verif`.
+#[cfg(feature = "verif")]
+pub(crate) mod verif_exports {
+    pub use super::cpu::{gather, idct_channel, inverse_rle, mv_decode, predict_candidate};
+    pub use super::picture::DecodedPicture;
+}
